@@ -10,13 +10,16 @@
        the 8 edge samples / 16 block cells, equal the reference: the three edge filters (simple, sub-block, macroblock) leave
        exactly the samples Spec.VP8's simple_edge / inner_edge / mb_edge leave at every edge position of every array, with the
        Rust arguments (edge_limit, interior_limit, hev_threshold) = the Spec arguments (thresh, ithresh, hevt); idct4x4 and
-       iwht4x4 equal Spec.VP8.idct / iwht for every block within 2^29 / 2^27 - 1 (the sharp bounds for exact i32 casts).
+       iwht4x4 equal Spec.VP8.idct / iwht for every block within 2^29 / 2^27 - 1 (the sharp bounds for exact i32 casts);
+     * calculate_filter_parameters (struct fields as parameters) computes the reference's per-macroblock filter level,
+       interior limit and key-frame hev threshold (Spec.VP8.filter_strength) for every header state whose segment base level
+       stays within 0..63 before the deltas are added.
    NOT proved (the two structural links of DESIGN.md section 6 C02: interleaved parsing with contexts = AST parse, workspace /
    border bookkeeping = frame-addressed reconstruction and per-macroblock filter traversal): decided on every run by the
    whole-frame correspondence implementation = Spec.VP8.decode on generated key frames (harness c02), and on libwebp. *)
 From Coq Require Import ZArith List Lia.
 From WebP Require Import Gen.Tables Gen.Kernels Lib.ZBits Lib.Arr Spec.VP8Tables Spec.VP8 Proofs.VP8_tables Proofs.VP8_kernels
-  Proofs.VP8_arraykernels_aux Proofs.VP8_arraykernels.
+  Proofs.VP8_arraykernels_aux Proofs.VP8_arraykernels Proofs.VP8_filter_params.
 Import ListNotations.
 Open Scope Z_scope.
 
@@ -97,3 +100,18 @@ Proof.
   - exact (proj1 (idct4x4_refines b0 b1 b2 b3 b4 b5 b6 b7 b8 b9 b10 b11 b12 b13 b14 b15 H)).
   - exact (proj1 (iwht4x4_refines b0 b1 b2 b3 b4 b5 b6 b7 b8 b9 b10 b11 b12 b13 b14 b15 H)).
 Qed.
+
+(* per-macroblock loop-filter parameters: level (segment override or delta, ref_lf_delta[0], mode_lf_delta[0] for B_PRED, clamps),
+   interior limit from the sharpness, key-frame hev threshold; level 0 = no filtering *)
+Theorem filter_parameters_refine : forall (h : header) (seg : Z) (i4 : bool),
+  0 <= h_level h <= 63 -> -63 <= nthZ (h_seg_filter h) seg 0 <= 63 ->
+  -63 <= nthZ (h_ref_lf_delta h) 0 0 <= 63 -> -63 <= nthZ (h_mode_lf_delta h) 0 0 <= 63 -> 0 <= h_sharpness h <= 7 ->
+  let base := if h_use_segment h then nthZ (h_seg_filter h) seg 0 + (if h_absolute h then 0 else h_level h) else h_level h in
+  0 <= base <= 63 ->
+  let out := calculate_filter_parameters (h_level h) (h_use_segment h) (negb (h_absolute h)) (nthZ (h_seg_filter h) seg 0)
+               (if h_use_lf_delta h then nthZ (h_ref_lf_delta h) 0 0 else 0)
+               (if h_use_lf_delta h then nthZ (h_mode_lf_delta h) 0 0 else 0)
+               (if i4 then 4 else 0) (h_sharpness h) true in
+  let level := nth 0 out 0 in let il := nth 1 out 0 in let hev := nth 2 out 0 in
+  filter_strength h seg i4 = if 0 <? level then mkF (2 * level + il) il hev else mkF 0 0 0.
+Proof. exact filter_params_refine. Qed.
